@@ -17,10 +17,15 @@ Proved (proofs in Garnish/Lemmas/ParserTree, ParserSim, ParserSteps, ParserTrivi
   and the result of `parse` does not depend on the trivia at all.
 Token positions: the theorems assume that token `i` of the list carries `i` in its `col` field (`NumberedFrom 0 toks`,
 what the harness' `!tokidx` mode and `numbered` do), because the tree records the positions of its tokens.
-Not proved: that `parse` accepts every list of the fragment (the theorems are conditional on `parse toks = .ok r`; the
-examples below and the PARSE suite show non-vacuity), and the stages prefix / suffix operators, brackets, lists.
+Acceptance (`parse` returns `Ok` on every list of the fragment) is `C02_parse_accepts_fragment`; `C02_modelParse_binary`
+is the unconditional form.  Stage 2 (prefix operators in operand position, fragment `Spec.frag2`) is
+`C02_parse_correct_fragment_prefix`, stage 3 (suffix operators, fragment `Spec.frag3`) is
+`C02_parse_correct_fragment_suffix`; both unconditional as well.  Not done: brackets / side-effect blocks, lists.
 -/
 import Garnish.Lemmas.ParserFrag5
+import Garnish.Lemmas.ParserAccept2
+import Garnish.Lemmas.ParserPrefix5
+import Garnish.Lemmas.ParserSuffix5
 import Garnish.Lemmas.RefParseInorder
 import Garnish.Lemmas.RefParseUnique
 import Garnish.Props.C02
@@ -81,6 +86,19 @@ theorem C18_parse_same_tokens_same_result (toks toks' : List PToken) (hf : frag4
     (hs : stripTrivia toks = stripTrivia toks') : parse toks = parse toks' := by
   rw [parse_frag4_strip toks hf, parse_frag4_strip toks' hf', hs]
 
+/-- **acceptance**: the model of `parse` returns `Ok` for EVERY token list of the fragment -/
+theorem C02_parse_accepts_fragment (toks : List PToken) (hf : frag4 toks = true) : ∃ r, parse toks = .ok r :=
+  parse_frag4_ok toks hf
+
+/-- **unconditional form** (what `Props.C02.C02_modelParse_binary_partial` asked for, on the larger fragment with trivia):
+    for every token list `value (trivia* binop trivia* value)*` whose tokens carry their positions, the model of `parse`
+    accepts, the result is a proper tree, and that tree is the reference tree -/
+theorem C02_modelParse_binary (toks : List PToken) (hf : frag4 toks = true) (hnum : NumberedFrom 0 toks) :
+    ∃ r t, parse toks = .ok r ∧ toTree r = some t ∧ refParse Table.gen toks = .ok (Garnish.Props.C02.treeToR r t) := by
+  obtain ⟨r, hr⟩ := parse_frag4_ok toks hf
+  obtain ⟨t, h1, h2⟩ := C02_parse_correct_fragment toks hf hnum r hr
+  exact ⟨r, t, hr, h1, h2⟩
+
 /-! ### non-vacuity: concrete lists of the fragment that the model accepts -/
 
 def tk (t : TokenType) (s : String) (k : Nat) : PToken := { text := s.toList, type := t, row := 0, col := k }
@@ -103,5 +121,86 @@ theorem ex1_accepted : (parse ex1).isOk = true := by decide
 theorem ex2_in_fragment : frag4 ex2 = true := by decide
 theorem ex2_numbered : NumberedFrom 0 ex2 := by simp [ex2, NumberedFrom, tk]
 theorem ex2_accepted : (parse ex2).isOk = true := by decide
+
+/-! ### stage 2: prefix operators
+
+Fragment `Spec.frag2` (decidable):   (prefix* value) (trivia* binop trivia* prefix* value)*
+with prefix = any UnaryPrefix token (`--`, `++`, `!`, `!!`, `??`, `#`, `_.`, `^~`, prefix identifiers). -/
+
+/-- **stage 2, unconditional**: for every token list of the fragment whose tokens carry their positions, the model of `parse`
+    accepts, its node array is a proper tree, and that tree is the reference tree.  In particular the equal-priority tie
+    between the prefix operators Not / Tis (priority 400) and `==` `!=` `#=` (priority 400, left-to-right) is resolved as
+    the table says: `!! a == b` is `(!! a) == b`, see `ex3`. -/
+theorem C02_parse_correct_fragment_prefix (toks : List PToken) (hf : frag2 toks = true) (hnum : NumberedFrom 0 toks) :
+    ∃ r t, parse toks = .ok r ∧ toTree r = some t ∧ refParse Table.gen toks = .ok (Garnish.Props.C02.treeToR r t) := by
+  obtain ⟨r, t, h1, h2, h3⟩ := parse_frag2 toks hf hnum
+  exact ⟨r, t, h1, h2, by rw [← C02_toRd_eq_treeToR]; exact h3⟩
+
+theorem C02_parse_accepts_fragment_prefix (toks : List PToken) (hf : frag2 toks = true) (hnum : NumberedFrom 0 toks) :
+    ∃ r, parse toks = .ok r := by
+  obtain ⟨r, _, h1, _⟩ := parse_frag2 toks hf hnum
+  exact ⟨r, h1⟩
+
+theorem C02_parse_fragment_prefix_precOK_inorder (toks : List PToken) (hf : frag2 toks = true) (hnum : NumberedFrom 0 toks) :
+    ∃ r t, parse toks = .ok r ∧ toTree r = some t ∧ ProperTree r ∧
+      PrecOK Table.gen Table.gen.rtl (Garnish.Props.C02.treeToR r t) ∧
+      (Garnish.Props.C02.treeToR r t).inorderSig = significant toks := by
+  obtain ⟨r, t, h0, h1, h2⟩ := C02_parse_correct_fragment_prefix toks hf hnum
+  exact ⟨r, t, h0, h1, ⟨t, (toTree_some_iff r t).mp h1⟩, Garnish.Props.C02.C02_refParse_precOK_gen toks _ h2,
+    refParse_inorder toks _ h2⟩
+
+/-- `!!a == b + --c * 2 ** ?? d`: four binary operators of four priorities, three prefix operators, and the tie
+    Not (400) against Equality (400) -/
+def ex3 : List PToken :=
+  [tk .not "!!" 0, tk .identifier "a" 1, tk .whitespace " " 2, tk .equality "==" 3, tk .whitespace " " 4,
+   tk .identifier "b" 5, tk .whitespace " " 6, tk .plusSign "+" 7, tk .whitespace " " 8, tk .opposite "--" 9,
+   tk .identifier "c" 10, tk .whitespace " " 11, tk .multiplicationSign "*" 12, tk .whitespace " " 13, tk .number "2" 14,
+   tk .whitespace " " 15, tk .exponentialSign "**" 16, tk .whitespace " " 17, tk .tis "??" 18, tk .identifier "d" 19]
+
+theorem ex3_in_fragment : frag2 ex3 = true := by decide
+theorem ex3_numbered : NumberedFrom 0 ex3 := by simp [ex3, NumberedFrom, tk]
+theorem ex3_accepted : (parse ex3).isOk = true := by decide
+
+/-- the tie `!! a == b`: the reference tree (hence, by `C02_parse_correct_fragment_prefix`, the tree of the model) is
+    `(!! a) == b` -/
+def exTie : List PToken := [tk .not "!!" 0, tk .identifier "a" 1, tk .equality "==" 2, tk .identifier "b" 3]
+theorem exTie_in_fragment : frag2 exTie = true := by decide
+theorem exTie_tree : refParse Table.gen exTie =
+    .ok (.node (.node .nil .not 0 (.node .nil .identifier 1 .nil)) .equality 2 (.node .nil .identifier 3 .nil)) := by
+  rfl
+
+/-! ### stage 3: suffix operators
+
+Fragment `Spec.frag3` (decidable):   (prefix* value suffix*) (trivia* binop trivia* prefix* value suffix*)*
+with suffix = any UnarySuffix token (`~~`, `._`, `.|`, suffix identifiers).  The node at the bottom of the right spine can
+now be a suffix operator, which may stop the next operator (`a ~~ . b`: Access 30 < EmptyApply 40): then `parse_token`
+takes its `parent == true_left` branch and the new operator gets no left operand — the reference parser does the same. -/
+
+/-- **stage 3, unconditional** -/
+theorem C02_parse_correct_fragment_suffix (toks : List PToken) (hf : frag3 toks = true) (hnum : NumberedFrom 0 toks) :
+    ∃ r t, parse toks = .ok r ∧ toTree r = some t ∧ refParse Table.gen toks = .ok (Garnish.Props.C02.treeToR r t) := by
+  obtain ⟨r, t, h1, h2, h3⟩ := parse_frag3 toks hf hnum
+  exact ⟨r, t, h1, h2, by rw [← C02_toRd_eq_treeToR]; exact h3⟩
+
+theorem C02_parse_fragment_suffix_precOK_inorder (toks : List PToken) (hf : frag3 toks = true) (hnum : NumberedFrom 0 toks) :
+    ∃ r t, parse toks = .ok r ∧ toTree r = some t ∧ ProperTree r ∧
+      PrecOK Table.gen Table.gen.rtl (Garnish.Props.C02.treeToR r t) ∧
+      (Garnish.Props.C02.treeToR r t).inorderSig = significant toks := by
+  obtain ⟨r, t, h0, h1, h2⟩ := C02_parse_correct_fragment_suffix toks hf hnum
+  exact ⟨r, t, h0, h1, ⟨t, (toTree_some_iff r t).mp h1⟩, Garnish.Props.C02.C02_refParse_precOK_gen toks _ h2,
+    refParse_inorder toks _ h2⟩
+
+/-- `a~~ + b._ * --c.| == !!d~~ . e`: four binary operators of four priorities, two prefix and four suffix operators, the
+    tie Not (400) / Equality (400), and a suffix node that stops the next operator (`~~` 40 against `.` 30) -/
+def ex4 : List PToken :=
+  [tk .identifier "a" 0, tk .emptyApply "~~" 1, tk .whitespace " " 2, tk .plusSign "+" 3, tk .whitespace " " 4,
+   tk .identifier "b" 5, tk .rightInternal "._" 6, tk .whitespace " " 7, tk .multiplicationSign "*" 8, tk .whitespace " " 9,
+   tk .opposite "--" 10, tk .identifier "c" 11, tk .lengthInternal ".|" 12, tk .whitespace " " 13, tk .equality "==" 14,
+   tk .whitespace " " 15, tk .not "!!" 16, tk .identifier "d" 17, tk .emptyApply "~~" 18, tk .whitespace " " 19,
+   tk .period "." 20, tk .whitespace " " 21, tk .identifier "e" 22]
+
+theorem ex4_in_fragment : frag3 ex4 = true := by decide
+theorem ex4_numbered : NumberedFrom 0 ex4 := by simp [ex4, NumberedFrom, tk]
+theorem ex4_accepted : (parse ex4).isOk = true := by decide
 
 end Garnish.Props.C02Parse
